@@ -3,6 +3,12 @@ package main
 import (
 	"encoding/json"
 	"fmt"
+	"github.com/storacha/go-ucanto/transport"
+	thttp "github.com/storacha/go-ucanto/transport/http"
+	"io"
+	"net/http"
+	"net/http/httptest"
+	"net/url"
 	"sort"
 	"strings"
 	"sync"
@@ -210,7 +216,11 @@ func failureName(n ipld.Node) string {
 // status per invocation (in batch order) plus the handler call log.
 func (cw *CWorld) serveBatch(srv server.ServerView, calls *[]handlerCall) (statuses []string, problems []string) {
 	w := cw.A
-	conn, err := client.NewConnection(cw.P[w.Authority].did, srv)
+	var ch transport.Channel = srv
+	if cw.channel != nil {
+		ch = cw.channel
+	}
+	conn, err := client.NewConnection(cw.P[w.Authority].did, ch)
 	if err != nil {
 		return nil, []string{"connection:" + err.Error()}
 	}
@@ -348,4 +358,26 @@ func execServe(args []string) (res Result) {
 		impl += "|problems:" + strings.Join(problems, ",")
 	}
 	return Result{Args: []string{mode, mustJSON(&w)}, Impl: impl}
+}
+
+// httpFront puts a real HTTP server in front of srv and returns the library's HTTP channel to it
+func httpFront(srv server.ServerView) (transport.Channel, func()) {
+	ts := httptest.NewServer(http.HandlerFunc(func(w http.ResponseWriter, r *http.Request) {
+		resp, err := srv.Request(thttp.NewHTTPRequest(r.Body, r.Header))
+		if err != nil {
+			http.Error(w, err.Error(), 500)
+			return
+		}
+		for k, v := range resp.Headers() {
+			for _, x := range v {
+				w.Header().Add(k, x)
+			}
+		}
+		w.WriteHeader(resp.Status())
+		if b := resp.Body(); b != nil {
+			io.Copy(w, b)
+		}
+	}))
+	u, _ := url.Parse(ts.URL)
+	return thttp.NewHTTPChannel(u), ts.Close
 }
